@@ -264,6 +264,9 @@ func (P) Generate(g *hx.Gen) {
 	for k := 0; k < nG; k++ {
 		genPrune(g, k)
 	}
+	for k := 0; k < g.Pick(3, 24); k++ {
+		genResume(g, k)
+	}
 	nF := g.Pick(6, 60)
 	for k := 0; k < nF; k++ {
 		genCatchup(g, k)
